@@ -23,11 +23,11 @@ theorem isBody_cases {one : Nat} {b : NExp} (h : isBody one b = true) :
     | suc a => simp [isBody, isAtomE] at h
     | mul a b => simp [isBody, isAtomE] at h
 
-theorem compareAtom_atom_num (one i s n : Nat) : compareAtom one (.atom i s) (.num n) = .lt := by
+theorem compareAtom_atom_num (one i : Nat) (s : Shape) (n : Nat) : compareAtom one (.atom i s) (.num n) = .lt := by
   simp [compareAtom, NExp.isNum]
 
 /-- Inserting an atom that is not smaller than the last factor leaves a body as it is. -/
-theorem insA_body_atom {one : Nat} {b : NExp} (hb : isBody one b = true) (i s : Nat)
+theorem insA_body_atom {one : Nat} {b : NExp} (hb : isBody one b = true) (i : Nat) (s : Shape)
     (hc : compareAtom one (lastFactor b) (.atom i s) ≠ .gt) :
     insA one b (.atom i s) = .mul b (.atom i s) := by
   rcases isBody_cases hb with ⟨j, sj, rfl⟩ | ⟨b1, j, sj, rfl, _, _⟩
